@@ -366,74 +366,18 @@ var _ = fgzlib.NewReader
 
 // SynthSpec is a descriptor of a synthesised DEFLATE stream (see synthspec.go).
 
-// deflateStop runs the reference decoder over a container and reports how the
-// DEFLATE part ended: the reference state and the absolute bit position at
-// which decoding stopped (start of the item that could not be completed).
-func deflateStop(kind string, b, dict []byte) (state string, stopBit int64) {
-	off := 0
-	var d []byte
-	switch kind {
-	case "gzip":
-		n, complete, valid, _, _ := parseGzipHeader(b)
-		if !valid {
-			return "corrupt", 0
-		}
-		if !complete {
-			return "more", int64(len(b)) * 8
-		}
-		off = n
-	case "zlib":
-		if len(b) < 2 {
-			return "more", int64(len(b)) * 8
-		}
-		off = 2
-		if b[1]&0x20 != 0 {
-			off, d = 6, dict
-			if len(b) < 6 {
-				return "more", int64(len(b)) * 8
-			}
-		}
-	default:
-		d = dict
-	}
-	r := refinflate.Inflate(b[off:], refinflate.Options{Dict: d, MaxOut: 64 << 20, LazyEOB: true})
-	return r.State, r.EndBit + int64(off)*8
-}
-
-// provablyCompletable reports whether some continuation of the bytes gets the
-// reference decoder past the item that was pending when the input ran out:
-// then the bytes are "a valid stream cut short so far" and a decoder that
-// calls them corrupt is wrong.  origin (the string before a truncation) is
-// tried first, then zeros, ones and seeded random continuations.  A false
-// answer only means that no witness was found.
+// provablyCompletable reports whether the bytes are known to be the beginning
+// of a valid stream: they are a truncation of a string (origin) that the
+// reference decoder accepts completely.  Only then is a decoder that calls
+// them corrupt wrong ("a valid stream cut short ends in io.ErrUnexpectedEOF");
+// for any other input that both oracles merely ran out of, corrupt and
+// unexpected EOF are both acceptable (a decoder that pads with zero bits at
+// EOF may see a defect that every continuation would also hit, and whether
+// one exists that avoids it cannot be decided by sampling continuations).
 func provablyCompletable(kind string, b, dict, origin []byte) bool {
-	cut := int64(len(b)) * 8
-	try := func(ext []byte) bool {
-		st, stop := deflateStop(kind, ext, dict)
-		return st != "corrupt" || stop >= cut
-	}
-	if origin != nil && len(origin) > len(b) && try(origin) {
-		return true
-	}
-	if len(b) > 1<<20 {
+	if origin == nil || len(origin) <= len(b) {
 		return false
 	}
-	rng := rand.New(rand.NewSource(int64(len(b))*7919 + 13))
-	for t := 0; t < 48; t++ {
-		ext := make([]byte, len(b)+16)
-		copy(ext, b)
-		switch t {
-		case 0:
-		case 1:
-			for i := len(b); i < len(ext); i++ {
-				ext[i] = 0xff
-			}
-		default:
-			rng.Read(ext[len(b):])
-		}
-		if try(ext) {
-			return true
-		}
-	}
-	return false
+	o := refContainer(kind, origin, dict, true)
+	return o.RefVerdict == "eof"
 }
